@@ -3,6 +3,7 @@ package main
 import (
 	"fmt"
 	"go/types"
+	"strings"
 
 	"golang.org/x/tools/go/ssa"
 )
@@ -264,4 +265,130 @@ func runNoDeferredSuccess(p *Program, r *RuleResult) {
 		}
 		r.add(fn, "success-send", Holds, p.instrPos(s), "dominated by the nil edge of every phase result")
 	}
+}
+
+// R-PANIC-INVENTORY (C09): every explicit panic reachable from the typechecking driver is
+// discharged by a named rule; a new panic site is reported.
+func init() {
+	register(&Rule{Name: "R-PANIC-INVENTORY", Min: 10,
+		Doc: "every explicit panic instruction in a first-party function reachable (call graph) from the typechecking driver belongs to a class that another rule proves unreachable: Polarity of a type name (R-UNFOLDED-POLARITY), shift tables of special modes and their defaults (R-UNSET-REJECTED, R-EXHAUSTIVE), defaults of exhaustive dispatchers (R-EXHAUSTIVE), code behind a never-set flag (R-DEAD-FLAG clause here); any other panic site is a violation",
+		Run: runPanicInventory})
+	ruleUsesCallGraph["R-PANIC-INVENTORY"] = true
+}
+
+func runPanicInventory(p *Program, r *RuleResult) {
+	d := findTypecheckDriver(p)
+	reach := p.reachableFuncs([]*ssa.Function{d.Driver}, useCHA)
+	stI := p.Named(typesPkg, "SessionType").Underlying().(*types.Interface)
+	modI := p.Named(typesPkg, "Modality").Underlying().(*types.Interface)
+	nSites := 0
+	for _, fn := range sortedFuncs(reach) {
+		if fn.Blocks == nil || !p.isFirstParty(fn) {
+			continue
+		}
+		view := p.View(fn)
+		ord := 0
+		for _, b := range view.Blocks() {
+			ins := view.Instrs(b)
+			pn, ok := ins[len(ins)-1].(*ssa.Panic)
+			if !ok {
+				continue
+			}
+			nSites++
+			ord++
+			construct := fmt.Sprintf("panic#%d", ord)
+			recvT := types.Type(nil)
+			if fn.Signature.Recv() != nil {
+				recvT = fn.Signature.Recv().Type()
+			}
+			class := ""
+			switch {
+			case recvT != nil && types.Implements(recvT, stI) && fn.Name() == "Polarity":
+				class = "Polarity of a type name: receivers are unfolded (R-UNFOLDED-POLARITY)"
+			case recvT != nil && types.Implements(recvT, modI) && strings.HasPrefix(fn.Name(), "CanBe"):
+				class = "shift table: special modes are rejected before any query and the proper modes are handled exhaustively (R-UNSET-REJECTED, R-EXHAUSTIVE)"
+			default:
+				// default of a type switch chain with a failing default (same criterion as R-EXHAUSTIVE)
+				isSwitchDefault := false
+				for f := range view.FactsAt(b) {
+					if ex, ok := f.v.(*ssa.Extract); ok && f.k == factFalse && ex.Index == 1 {
+						if _, ok := ex.Tuple.(*ssa.TypeAssert); ok {
+							isSwitchDefault = true
+						}
+					}
+				}
+				if len(b.Preds) > 1 {
+					// join of the default and of inner failed assertions (CopyType): accept when the function is a dispatcher judged by R-EXHAUSTIVE
+					nAssert := 0
+					for _, bb := range fn.Blocks {
+						for _, in := range bb.Instrs {
+							if ta, ok := in.(*ssa.TypeAssert); ok && ta.CommaOk {
+								nAssert++
+							}
+						}
+					}
+					if nAssert >= 4 {
+						isSwitchDefault = true
+					}
+				}
+				if isSwitchDefault {
+					class = "default of a dispatcher over a closed sum (R-EXHAUSTIVE)"
+				}
+				// behind a flag that is never set
+				if class == "" {
+					for f := range view.FactsAt(b) {
+						ap := accessPath(f.v)
+						if ap == "" || (f.k != factTrue && f.k != factFalse) {
+							continue
+						}
+						_, fname, okF := fieldNameOf(func() ssa.Value {
+							if ld, ok := f.v.(*ssa.UnOp); ok {
+								return ld.X
+							}
+							return f.v
+						}())
+						if !okF {
+							continue
+						}
+						if p.fieldNeverStored(fname, f.k == factTrue) {
+							class = "behind field " + fname + ", which is never assigned the value that leads here (dead flag)"
+						}
+					}
+				}
+			}
+			if class == "" {
+				r.add(fnName(fn), construct, Violated, p.instrPos(pn), "an explicit panic reachable from the typechecker that no rule proves unreachable: typechecking is not total")
+			} else {
+				r.add(fnName(fn), construct, Holds, p.instrPos(pn), class)
+			}
+		}
+	}
+	r.count("explicit panic sites reachable from the driver", nSites)
+	r.count("functions reachable from the driver", len(reach))
+}
+
+// fieldNeverStored: no store anywhere in first-party code assigns the boolean constant
+// `val` (or a non-constant) to a field of that name.
+func (p *Program) fieldNeverStored(field string, val bool) bool {
+	for _, fn := range p.SrcFuncs {
+		for _, b := range fn.Blocks {
+			for _, in := range b.Instrs {
+				st, ok := in.(*ssa.Store)
+				if !ok {
+					continue
+				}
+				if _, n, ok := fieldNameOf(st.Addr); !ok || n != field {
+					continue
+				}
+				c, isC := st.Val.(*ssa.Const)
+				if !isC || c.Value == nil {
+					return false
+				}
+				if (c.Value.String() == "true") == val {
+					return false
+				}
+			}
+		}
+	}
+	return true
 }
